@@ -53,6 +53,24 @@ type vfCall struct {
 
 type vfCallLogger interface{ vfLogCall(vfCall) }
 
+// optional: the connection a transport returned is handed to the relay; its first Read that returns
+// data is what PrefixConn (io.MultiReader(buffered bytes, live connection)) serves first
+type vfRelayLogger interface{ vfLogRelayRead(b []byte) }
+
+type vfRelayConn struct {
+	net.Conn
+	owner vfRelayLogger
+	seen  int32
+}
+
+func (r *vfRelayConn) Read(p []byte) (int, error) {
+	n, err := r.Conn.Read(p)
+	if n > 0 && atomic.CompareAndSwapInt32(&r.seen, 0, 1) {
+		r.owner.vfLogRelayRead(p[:n])
+	}
+	return n, err
+}
+
 type vfRecT struct {
 	cj.WrappingTransport
 	name string
@@ -87,6 +105,9 @@ func (r vfRecT) WrapConnection(data *bytes.Buffer, c net.Conn, ip net.IP, rm tra
 			}
 		}
 		lc.vfLogCall(v)
+	}
+	if rl, ok := c.(vfRelayLogger); ok && err == nil && w != nil {
+		w = &vfRelayConn{Conn: w, owner: rl}
 	}
 	return reg, w, err
 }
